@@ -7,6 +7,7 @@ import (
 	"math/big"
 	"sort"
 	"strconv"
+	"sync"
 	"testing"
 
 	"github.com/zenon-network/go-zenon/chain/nom"
@@ -386,11 +387,17 @@ type method struct {
 func mAccountBlocksByHeight(e *Env) {
 	c, v := e.C, e.V
 	addr := e.Addr("abh.addr")
-	truth := v.L.Blocks[addr]
-	h, cnt := GenHeight(c, "abh.height", len(truth)), GenCount(c, "abh.count", len(truth))
+	n := len(v.L.Blocks[addr])
+	h, cnt := GenHeight(c, "abh.height", n), GenCount(c, "abh.count", n)
 	if c.Weighted("abh.near64", 9, 1) == 1 {
 		h, cnt = math.MaxUint64-uint64(c.Int("abh.below", 0, 20)), uint64(c.Int("abh.cnt64", 1, 40))
 	}
+	checkAccountBlocksByHeight(e, addr, h, cnt)
+}
+
+func checkAccountBlocksByHeight(e *Env, addr types.Address, h, cnt uint64) {
+	c, v := e.C, e.V
+	truth := v.L.Blocks[addr]
 	k := Call{"ledger", v.Apis.Ledger, "GetAccountBlocksByHeight", []interface{}{addr, h, cnt}}
 	c.Note("%s on %s (chain of %d)", k, v.Name, len(truth))
 	a := e.Do(k)
@@ -406,9 +413,15 @@ func mAccountBlocksByHeight(e *Env) {
 func mAccountBlocksByPage(e *Env) {
 	c, v := e.C, e.V
 	addr := e.Addr("abp.addr")
+	n := len(v.L.Blocks[addr])
+	size := GenSize(c, "abp.size", n, api.RpcMaxPageSize)
+	idx := GenIndex(c, "abp.index", n, size)
+	checkAccountBlocksByPage(e, addr, idx, size)
+}
+
+func checkAccountBlocksByPage(e *Env, addr types.Address, idx, size uint32) {
+	c, v := e.C, e.V
 	truth := v.L.Blocks[addr]
-	size := GenSize(c, "abp.size", len(truth), api.RpcMaxPageSize)
-	idx := GenIndex(c, "abp.index", len(truth), size)
 	k := Call{"ledger", v.Apis.Ledger, "GetAccountBlocksByPage", []interface{}{addr, idx, size}}
 	c.Note("%s on %s (chain of %d)", k, v.Name, len(truth))
 	a := e.Do(k)
@@ -424,9 +437,15 @@ func mAccountBlocksByPage(e *Env) {
 func mUnconfirmed(e *Env) {
 	c, v := e.C, e.V
 	addr := e.Addr("unc.addr")
+	n := len(v.PooledOf(addr))
+	size := GenSize(c, "unc.size", n, api.RpcMaxPageSize)
+	idx := GenIndex(c, "unc.index", n, size)
+	checkUnconfirmed(e, addr, idx, size)
+}
+
+func checkUnconfirmed(e *Env, addr types.Address, idx, size uint32) {
+	c, v := e.C, e.V
 	truth := v.PooledOf(addr)
-	size := GenSize(c, "unc.size", len(truth), api.RpcMaxPageSize)
-	idx := GenIndex(c, "unc.index", len(truth), size)
 	k := Call{"ledger", v.Apis.Ledger, "GetUnconfirmedBlocksByAddress", []interface{}{addr, idx, size}}
 	c.Note("%s on %s (%d pooled)", k, v.Name, len(truth))
 	a := e.Do(k)
@@ -456,10 +475,16 @@ func sortedKeys(m map[types.Hash]bool) []string {
 func mUnreceived(e *Env) {
 	c, v := e.C, e.V
 	addr := e.Addr("unr.addr")
+	must, _ := v.Unreceived(addr)
+	size := GenSize(c, "unr.size", len(must), unreceivedMaxPageSize)
+	idx := GenIndex(c, "unr.index", len(must), size)
+	checkUnreceived(e, addr, idx, size)
+}
+
+func checkUnreceived(e *Env, addr types.Address, idx, size uint32) {
+	c, v := e.C, e.V
 	must, optional := v.Unreceived(addr)
 	truth := sortedKeys(must)
-	size := GenSize(c, "unr.size", len(truth), unreceivedMaxPageSize)
-	idx := GenIndex(c, "unr.index", len(truth), size)
 	k := Call{"ledger", v.Apis.Ledger, "GetUnreceivedBlocksByAddress", []interface{}{addr, idx, size}}
 	c.Note("%s on %s (%d unreceived, %d with a pooled receive)", k, v.Name, len(truth), len(optional))
 	a := e.Do(k)
@@ -508,7 +533,12 @@ func mMomentumsByHeight(e *Env) {
 	if c.Weighted("mbh.near64", 9, 1) == 1 {
 		h, cnt = math.MaxUint64-uint64(c.Int("mbh.below", 0, 20)), uint64(c.Int("mbh.cnt64", 1, 40))
 	}
-	detailed := c.Bool("mbh.detailed")
+	checkMomentumsByHeight(e, h, cnt, c.Bool("mbh.detailed"))
+}
+
+func checkMomentumsByHeight(e *Env, h, cnt uint64, detailed bool) {
+	c, v := e.C, e.V
+	n := len(v.Momentums)
 	name := "GetMomentumsByHeight"
 	if detailed {
 		name = "GetDetailedMomentumsByHeight"
@@ -565,7 +595,12 @@ func mMomentumsByPage(e *Env) {
 	c, v := e.C, e.V
 	n := len(v.Momentums)
 	size := GenSize(c, "mbp.size", n, api.RpcMaxPageSize)
-	idx := GenIndex(c, "mbp.index", n, size)
+	checkMomentumsByPage(e, GenIndex(c, "mbp.index", n, size), size)
+}
+
+func checkMomentumsByPage(e *Env, idx, size uint32) {
+	c, v := e.C, e.V
+	n := len(v.Momentums)
 	k := Call{"ledger", v.Apis.Ledger, "GetMomentumsByPage", []interface{}{idx, size}}
 	c.Note("%s on %s (frontier %d)", k, v.Name, n)
 	a := e.Do(k)
@@ -601,6 +636,11 @@ func mMomentumBeforeTime(e *Env) {
 		m := v.Momentums[c.Pick("mbt.wrapmom", len(v.Momentums))]
 		ts = int64(m.TimestampUnix) + int64(c.Int("mbt.wrapk", -3, 3))<<55 + int64(c.Int("mbt.wrapd", -1, 1))
 	}
+	checkMomentumBeforeTime(e, ts)
+}
+
+func checkMomentumBeforeTime(e *Env, ts int64) {
+	c, v := e.C, e.V
 	k := Call{"ledger", v.Apis.Ledger, "GetMomentumBeforeTime", []interface{}{ts}}
 	c.Note("%s on %s (timestamps %d..%d)", k, v.Name, v.Momentums[0].TimestampUnix, v.Momentums[len(v.Momentums)-1].TimestampUnix)
 	a := e.Do(k)
@@ -1221,6 +1261,12 @@ func (m *embList) run(e *Env) {
 	}
 	size := GenSize(c, "emb.size", n, m.limit)
 	idx := GenIndex(c, "emb.index", n, size)
+	m.check(e, prefix, ref, idx, size)
+}
+
+func (m *embList) check(e *Env, prefix []interface{}, ref []string, idx, size uint32) {
+	c := e.C
+	n := len(ref)
 	k, a := e.pageCall(m, prefix, idx, size)
 	c.Note("%s on %s (list of %d)", k, e.V.Name, n)
 	if a.Err != "" {
@@ -1229,6 +1275,99 @@ func (m *embList) run(e *Env) {
 	}
 	o := e.ParseList(k, a, m.id)
 	e.CheckPage(k, o, PageSpec{Truth: ref, Ordered: true, WantCount: int64(n), Limit: m.limit, Index: idx, Size: size})
+}
+
+// ---- boundary sweep ------------------------------------------------------------------------------------
+
+var swept sync.Map
+
+// sweep asks every paged / ranged method about every boundary value of its integer arguments
+// once per process and long-lived world (deterministic, no draws of the case are consumed, so a
+// recorded case replays identically; a failure here reproduces in any fresh process).
+func sweep(e *Env, emb []embList) {
+	if !e.V.LongLived {
+		return
+	}
+	if _, done := swept.LoadOrStore(e.V.Name, true); done {
+		return
+	}
+	c, v := e.C, e.V
+	saved := c.Src
+	c.Src = &detSrc{s: 1818}
+	defer func() { c.Src = saved }()
+	via := e.ViaServerToo
+	e.ViaServerToo = false
+	defer func() { e.ViaServerToo = via }()
+	calls := 0
+	for i := range emb {
+		m := &emb[i]
+		for p := 0; p < 2; p++ {
+			prefix := m.prefix(e)
+			truth, ordered := m.truth(e, prefix)
+			ref := e.refOrder(m, prefix, truth, ordered)
+			for _, idx := range u32Bounds {
+				for _, size := range []uint32{1, 7, m.limit} {
+					m.check(e, prefix, ref, idx, size)
+					calls++
+				}
+			}
+			for _, size := range u32Bounds {
+				m.check(e, prefix, ref, 0, size)
+				m.check(e, prefix, ref, 1, size)
+				calls += 2
+			}
+		}
+	}
+	addrs := []types.Address{v.Busy, v.Sink, types.TokenContract, types.ZeroAddress}
+	for _, a := range v.AddrPool {
+		if len(v.PooledOf(a)) > 1 {
+			addrs = append(addrs, a)
+			break
+		}
+	}
+	for _, addr := range addrs {
+		for _, idx := range u32Bounds {
+			for _, size := range []uint32{1, 7, api.RpcMaxPageSize} {
+				checkAccountBlocksByPage(e, addr, idx, size)
+				checkUnconfirmed(e, addr, idx, size)
+				calls += 2
+			}
+			for _, size := range []uint32{1, 7, unreceivedMaxPageSize} {
+				checkUnreceived(e, addr, idx, size)
+				calls++
+			}
+		}
+		for _, h := range u64Bounds {
+			for _, cnt := range []uint64{1, 7, api.RpcMaxCountSize} {
+				checkAccountBlocksByHeight(e, addr, h, cnt)
+				calls++
+			}
+		}
+		for _, cnt := range u64Bounds {
+			checkAccountBlocksByHeight(e, addr, 1, cnt)
+			checkAccountBlocksByHeight(e, addr, 2, cnt)
+			calls += 2
+		}
+	}
+	for _, idx := range u32Bounds {
+		for _, size := range []uint32{1, 7, api.RpcMaxPageSize} {
+			checkMomentumsByPage(e, idx, size)
+			calls++
+		}
+	}
+	for _, h := range u64Bounds {
+		for _, cnt := range []uint64{1, 7, api.RpcMaxCountSize} {
+			checkMomentumsByHeight(e, h, cnt, false)
+			checkMomentumsByHeight(e, h, cnt, cnt != api.RpcMaxCountSize)
+			calls += 2
+		}
+	}
+	for _, ts := range []int64{0, 1, -1, math.MinInt64, math.MinInt64 + 1, math.MaxInt64, math.MaxInt64 - 1, maxNanoSec, maxNanoSec + 1, -maxNanoSec, -maxNanoSec - 2, 1 << 31, 1 << 32, 1 << 55, 1 << 62} {
+		checkMomentumBeforeTime(e, ts)
+		calls++
+	}
+	c.Class("boundary-sweep-over-" + v.Name)
+	c.R.Count("boundary_sweep_calls", calls)
 }
 
 // walk pages through the whole list with page size `size` and compares the concatenation.
@@ -1416,6 +1555,7 @@ func TestC18Paging(t *testing.T) {
 		if e.ViaServerToo {
 			c.Class("also-through-rpc-server")
 		}
+		sweep(e, emb)
 		calls := c.Int("calls", 3, 10)
 		for i := 0; i < calls; i++ {
 			switch c.Weighted("family", 5, 5, 1, 1) {
@@ -1456,6 +1596,7 @@ func TestC18PageCap(t *testing.T) {
 		v := HugeView(t)
 		c.Class("world-huge")
 		e := &Env{C: c, V: v, ViaServerToo: c.Weighted("via-server", 4, 1) == 1}
+		sweep(e, emb)
 		if c.Weighted("cap.family", 3, 2) == 1 {
 			capLedger(e)
 			return
